@@ -105,12 +105,9 @@ func handleSDIFF(params internal.HandlerFuncParams) ([]byte, error) {
 	diff := baseSet.Subtract(sets)
 	elems := diff.GetAll()
 
-	res := fmt.Sprintf("*%d", len(elems))
-	for i, e := range elems {
-		res = fmt.Sprintf("%s\r\n$%d\r\n%s", res, len(e), e)
-		if i == len(elems)-1 {
-			res += "\r\n"
-		}
+	res := fmt.Sprintf("*%d\r\n", len(elems))
+	for _, e := range elems {
+		res += fmt.Sprintf("$%d\r\n%s\r\n", len(e), e)
 	}
 
 	return []byte(res), nil
@@ -185,12 +182,9 @@ func handleSINTER(params internal.HandlerFuncParams) ([]byte, error) {
 	intersect, _ := Intersection(0, sets...)
 	elems := intersect.GetAll()
 
-	res := fmt.Sprintf("*%d", len(elems))
-	for i, e := range elems {
-		res = fmt.Sprintf("%s\r\n$%d\r\n%s", res, len(e), e)
-		if i == len(elems)-1 {
-			res += "\r\n"
-		}
+	res := fmt.Sprintf("*%d\r\n", len(elems))
+	for _, e := range elems {
+		res += fmt.Sprintf("$%d\r\n%s\r\n", len(e), e)
 	}
 
 	return []byte(res), nil
@@ -325,12 +319,9 @@ func handleSMEMBERS(params internal.HandlerFuncParams) ([]byte, error) {
 
 	elems := set.GetAll()
 
-	res := fmt.Sprintf("*%d", len(elems))
-	for i, e := range elems {
-		res = fmt.Sprintf("%s\r\n$%d\r\n%s", res, len(e), e)
-		if i == len(elems)-1 {
-			res += "\r\n"
-		}
+	res := fmt.Sprintf("*%d\r\n", len(elems))
+	for _, e := range elems {
+		res += fmt.Sprintf("$%d\r\n%s\r\n", len(e), e)
 	}
 
 	return []byte(res), nil
@@ -435,12 +426,9 @@ func handleSPOP(params internal.HandlerFuncParams) ([]byte, error) {
 
 	members := set.Pop(count)
 
-	res := fmt.Sprintf("*%d", len(members))
-	for i, m := range members {
-		res = fmt.Sprintf("%s\r\n$%d\r\n%s", res, len(m), m)
-		if i == len(members)-1 {
-			res += "\r\n"
-		}
+	res := fmt.Sprintf("*%d\r\n", len(members))
+	for _, m := range members {
+		res += fmt.Sprintf("$%d\r\n%s\r\n", len(m), m)
 	}
 
 	return []byte(res), nil
@@ -475,12 +463,9 @@ func handleSRANDMEMBER(params internal.HandlerFuncParams) ([]byte, error) {
 
 	members := set.GetRandom(count)
 
-	res := fmt.Sprintf("*%d", len(members))
-	for i, m := range members {
-		res = fmt.Sprintf("%s\r\n$%d\r\n%s", res, len(m), m)
-		if i == len(members)-1 {
-			res += "\r\n"
-		}
+	res := fmt.Sprintf("*%d\r\n", len(members))
+	for _, m := range members {
+		res += fmt.Sprintf("$%d\r\n%s\r\n", len(m), m)
 	}
 
 	return []byte(res), nil
@@ -529,12 +514,10 @@ func handleSUNION(params internal.HandlerFuncParams) ([]byte, error) {
 
 	union := Union(sets...)
 
-	res := fmt.Sprintf("*%d", union.Cardinality())
-	for i, e := range union.GetAll() {
-		res = fmt.Sprintf("%s\r\n$%d\r\n%s", res, len(e), e)
-		if i == len(union.GetAll())-1 {
-			res += "\r\n"
-		}
+	elems := union.GetAll()
+	res := fmt.Sprintf("*%d\r\n", len(elems))
+	for _, e := range elems {
+		res += fmt.Sprintf("$%d\r\n%s\r\n", len(e), e)
 	}
 
 	return []byte(res), nil
